@@ -702,6 +702,14 @@ func (v *FnVerifier) modLocsOf(cl *Clause, env *TEnv) []modLoc {
 				}
 				s2 := sl
 				out = append(out, modLoc{arrs: v.cellArraysOf(sl.Elem), region: &s2})
+			case "spare":
+				// the unused capacity of a slice: elements [len, cap) of its backing array
+				sl, ok := env.tr(x.Args[0]).V.(SliceV)
+				if !ok {
+					sfail("modifies spare(...) wants a slice")
+				}
+				s2 := SliceV{B: sl.B, O: T(SInt, "(+ %s %s)", sl.O.S, sl.L.S), L: IntLit(0), C: T(SInt, "(- %s %s)", sl.C.S, sl.L.S), Elem: sl.Elem}
+				out = append(out, modLoc{arrs: v.cellArraysOf(sl.Elem), region: &s2})
 			case "fields":
 				base := env.tr(x.Args[0])
 				ref := base.V.(Term)
